@@ -14,7 +14,7 @@ from mc import x_lie as R
 PROPERTY = "C55"
 LEVEL = "exploration"
 TECHNIQUE = "exhaustive enumeration of generator subsets / bases / Pauli words vs. dense linear-algebra reference"
-LEVEL_TEXT = ("All subsets of size 1-3 of a 10-element generator pool on 3 qubits (thorough: +4-qubit pool, size<=2) in operator, PauliSentence and "
+LEVEL_TEXT = ("All subsets of size 1-3 of a 10-element generator pool on 3 qubits (thorough: +4-qubit pool) in operator, PauliSentence and "
               "matrix form with max_iterations in {1,2,default}: independence, span, closure, dimension vs. a brute-force closure; structure "
               "constants (orthogonal / non-orthogonal / matrix paths) reproduce every commutator; PauliVSpace.is_independent vs. SVD rank for "
               "every basis subset x candidate; every involution on every Pauli word of <=3 qubits vs. its documented map; Cartan relations, "
@@ -177,7 +177,7 @@ def check_closure(spec):
                     return bad(f"closure:not-closed:{tag}", [i, j], "[b_i, b_j] in span", **info)
     # structure constants of the returned basis (only for closed results)
     nsc = 0
-    if len(B) == len(full) and len(B) <= (24 if form != "matrix" else 64):
+    if len(B) == len(full) and len(B) <= (40 if form != "matrix" else 64):
         gram = np.array([[np.trace(a.conj().T @ b) for b in B] for a in B])
         orth = bool(np.abs(gram - np.diag(np.diag(gram))).max() < 1e-9)
         flags = [False, True] if orth else [False]
@@ -459,7 +459,7 @@ def run(ctx):
                     continue
                 clo.append({"k": "closure", "n": 3, "g": g, "f": form, "mi": mi})
     if not q:
-        for s in subsets(POOL4, 2):
+        for s in subsets(POOL4, 3):
             g = [POOL4[i] for i in s]
             for form in ("ps", "matrix"):
                 clo.append({"k": "closure", "n": 4, "g": g, "f": form, "mi": None})
@@ -492,6 +492,8 @@ def run(ctx):
     for p, qq in ((1, 3), (3, 1)):
         for w in [[[1.0, s]] for s in R.all_words(2)]:
             for form in ("ps", "matrix"):
+                if form == "ps" and "I" in w[0][1]:
+                    continue  # the PauliSentence path infers the Hilbert space from the operator's own wires
                 inv.append({"k": "inv", "inv": "AIII", "kw": {"p": p, "q": qq}, "n": 2, "w": w, "f": form})
     ctx.enumerate(inv, axis="involution")
     car = []
